@@ -24,6 +24,7 @@ from . import HarnessError
 AF_INET = 2
 SOCK_DGRAM = 2
 SHUT_RD, SHUT_WR, SHUT_RDWR = 0, 1, 2
+MSG_PEEK, MSG_DONTWAIT = 2, 0x40
 
 
 class SimClock:
@@ -56,7 +57,7 @@ class SimNet:
         self.default_latency = 0.0
         self.stats = {"sent": 0, "delivered": 0, "dropped": 0, "duplicated": 0,
                       "lost_unbound": 0, "overflow": 0, "held": 0, "reordered": 0,
-                      "truncated": 0, "timeouts": 0, "forced_timeouts": 0}
+                      "truncated": 0, "timeouts": 0, "forced_timeouts": 0, "would_block": 0}
         # receive-fault control: set of global receive positions to force "no data" at
         self.force_nodata = frozenset()
         self.recv_pos = 0          # global receive position counter (shared with doubles)
@@ -158,16 +159,38 @@ class SimSocket:
         self.net.transmit(self, bytes(data), (addr[0], int(addr[1])))
         return len(data)
 
-    def recvfrom(self, n):
+    def recvfrom(self, n, flags=0):
         if self.closed:
             raise OSError(errno.EBADF, "Bad file descriptor")
         net = self.net
         clock = net.clock
-        pos = net.next_recv_pos()
         tau = self.timeout
+        if flags & ~(MSG_PEEK | MSG_DONTWAIT):
+            raise HarnessError("recvfrom flags %#x are not modelled" % flags)
+        if (tau is not None and tau <= 0) or (flags & MSG_DONTWAIT) or (flags & MSG_PEEK):
+            # Non-blocking poll and/or peek: what is queued *now* (arrival <= now), else BlockingIOError (a peek on a
+            # blocking socket waits like a read; that combination is not used by anything realistic and is treated
+            # as a poll).  Not a receive position: the no-data fault is about reads that wait and time out.  A
+            # non-peek poll that returns data consumes the datagram and IS a receive event.
+            if self.inbox and self.inbox[0][0] <= clock.now:
+                if flags & MSG_PEEK:
+                    arrival, _, data, src = self.inbox[0]
+                    net.log.add("sock.peek", self.label, data[:n])
+                    return data[:n], src
+                arrival, _, data, src = heapq.heappop(self.inbox)
+                if len(data) > n:
+                    net.stats["truncated"] += 1
+                    data = data[:n]
+                net.stats["delivered"] += 1
+                pos = net.next_recv_pos()
+                net.log.add("sock.recv", self.label, pos, data, clock.now)
+                if net.hook_recv is not None:
+                    net.hook_recv(self, pos, data)
+                return data, src
+            net.stats["would_block"] += 1
+            raise BlockingIOError(errno.EAGAIN, "Resource temporarily unavailable")
+        pos = net.next_recv_pos()
         forced = pos in net.force_nodata
-        if tau is not None and tau <= 0:
-            raise HarnessError("non-blocking sockets are outside the simulated configuration space")
         if not forced and self.inbox:
             arrival = self.inbox[0][0]
             if tau is None or arrival <= clock.now + tau:
@@ -229,8 +252,8 @@ class SimSocket:
     def getsockname(self):
         return self.addr or ("0.0.0.0", 0)
 
-    def recv(self, n):
-        return self.recvfrom(n)[0]
+    def recv(self, n, flags=0):
+        return self.recvfrom(n, flags)[0]
 
     def connect(self, addr):
         self.peer = (addr[0], int(addr[1]))
@@ -257,6 +280,7 @@ class SimSocketModule:
     AF_INET = AF_INET
     SOCK_DGRAM = SOCK_DGRAM
     SHUT_RD, SHUT_WR, SHUT_RDWR = SHUT_RD, SHUT_WR, SHUT_RDWR
+    MSG_PEEK, MSG_DONTWAIT = MSG_PEEK, MSG_DONTWAIT
     timeout = TimeoutError
     error = OSError
     SOL_SOCKET, SO_REUSEADDR, SO_REUSEPORT, SO_BROADCAST, SO_RCVBUF, SO_SNDBUF = 1, 2, 15, 6, 8, 7
